@@ -146,7 +146,6 @@ def _pickle_sibling_hop(x):
 HOPS = {
     "json-reload-after-sibling-edit": _json_sibling_hop,
     "unpickle-after-sibling-edit": _pickle_sibling_hop,
-    "pickle0": lambda x: pickle.loads(pickle.dumps(x, protocol=0)),
     "pickle2": lambda x: pickle.loads(pickle.dumps(x, protocol=2)),
     "pickle5": lambda x: pickle.loads(pickle.dumps(x, protocol=5)),
     "pickle-container": lambda x: pickle.loads(pickle.dumps({"k": [x, (x,)]}))["k"][1][0],
@@ -161,7 +160,7 @@ HOPS = {
     "json-registry": _json_hop,
     "savetxt-loadtxt": hop_savetxt,
 }
-HOPS_EXTRA = {"pickle1": 1, "pickle3": 3, "pickle4": 4}
+HOPS_EXTRA = {"pickle3": 3, "pickle4": 4}  # protocols 0 and 1 are refused by SymPy itself (NotImplementedError): not unyt behaviour
 for _n, _p in HOPS_EXTRA.items():
     HOPS[_n] = lambda x, _p=_p: pickle.loads(pickle.dumps(x, protocol=_p))
 QUICK_HOPS = ["json-reload-after-sibling-edit", "unpickle-after-sibling-edit", "pickle2", "pickle5", "pickle-container", "copy.copy", "copy.deepcopy", ".copy()", "copy(deep)", "np.copy", "str-rebuild", "json-registry", "savetxt-loadtxt"]
